@@ -8,7 +8,10 @@ import (
 	"context"
 	"time"
 
+	"github.com/sirupsen/logrus"
+
 	"github.com/atlassian/gostatsd"
+	"github.com/atlassian/gostatsd/internal/awslambda/extension"
 	"github.com/atlassian/gostatsd/internal/flush"
 	"github.com/atlassian/gostatsd/internal/lexer"
 	"github.com/atlassian/gostatsd/internal/pool"
@@ -45,4 +48,13 @@ type AlignedTicker = util.AlignedTicker
 // NewAlignedTickerWithContext is internal/util.NewAlignedTickerWithContext.
 func NewAlignedTickerWithContext(ctx context.Context, interval, offset time.Duration) *AlignedTicker {
 	return util.NewAlignedTickerWithContext(ctx, interval, offset)
+}
+
+// LambdaServer is internal/awslambda/extension.Server.
+type LambdaServer = extension.Server
+
+// NewLambdaManager is internal/awslambda/extension.NewManager with manual flush enabled, the way pkg/lambda.NewExtension
+// builds it, around any server.
+func NewLambdaManager(runtimeAPI, name string, log logrus.FieldLogger, server LambdaServer, fc FlushCoordinator, telemetryAddr string) LambdaServer {
+	return extension.NewManager(runtimeAPI, name, log, server, extension.WithManualFlushEnabled(fc, telemetryAddr))
 }
